@@ -1106,6 +1106,69 @@ func c03(c *Ctx) {
 		errFirstRule(r, scope)
 	})
 
+	c.Rule("C03.R6", "a set always has a member map: every gostatsd.Set built on an ingestion path gets Values from make / a map literal or from another set (merging and receiving write into Values without testing it; a nil map there is a panic in the aggregator goroutine)", 3, func(r *Rule) {
+		n := 0
+		for _, fn := range w.ModuleFuncs() {
+			p := fnPkgPath(fn)
+			if fn.Parent() != nil || !(p == Mod || p == Mod+"/pkg/statsd" || p == Mod+"/pkg/web") {
+				continue
+			}
+			for _, lit := range complitsOf(fn, "Set") {
+				n++
+				v, has := lit["Values"]
+				if !has {
+					r.Fail(FuncName(fn)+":set-values:missing", fn.Pos(), "a Set literal without Values: its member map is nil")
+					continue
+				}
+				bad := ""
+				var check func(v ssa.Value, d int)
+				check = func(v ssa.Value, d int) {
+					for _, vc := range valueCases(v, nil) {
+						switch x := ptrOrigin(vc.V).(type) {
+						case *ssa.MakeMap:
+						case *ssa.UnOp:
+							if t, f, _, ok := fieldRefThroughLoad(x); !(ok && t == "Set" && f == "Values") {
+								bad = exprString(vc.V, 0)
+							}
+						case *ssa.Field:
+							if fieldName(x.X.Type(), x.Field) != "Values" {
+								bad = exprString(vc.V, 0)
+							}
+						case *ssa.Parameter:
+							// a constructor's parameter: what the module's call sites pass
+							if d > 2 {
+								bad = exprString(vc.V, 0)
+								continue
+							}
+							pf := x.Parent()
+							idx := -1
+							for i, q := range pf.Params {
+								if q == x {
+									idx = i
+								}
+							}
+							for _, g := range w.ModuleFuncs() {
+								if strings.Contains(fnPkgPath(g), "/internal/fixtures") {
+									continue
+								}
+								for _, cc := range callsIn(g) {
+									if staticCallee(cc) == pf && idx >= 0 && idx < len(cc.Common().Args) {
+										check(cc.Common().Args[idx], d+1)
+									}
+								}
+							}
+						default:
+							bad = exprString(vc.V, 0)
+						}
+					}
+				}
+				check(v, 0)
+				r.Check(FuncName(fn)+":set-values:never-nil", bad == "", fn.Pos(), "Values of a new Set is a fresh map or another set's member map "+bad)
+			}
+		}
+		r.Check("set-construction-sites", n >= 3, token.NoPos, fmt.Sprintf("%d Set literals", n))
+	})
+
 	c.Rule("C03.R3", "every request is answered with exactly one status and errors dispatch nothing (C14.R5)", 10, func(r *Rule) {
 		sub := &Ctx{W: w, Prop: c.Prop, Tier: c.Tier, known: c.known, Only: "C14.R5"}
 		c14(sub)
